@@ -746,4 +746,662 @@ theorem Inv_iter {s : St} {now : Nat} (ko : Option Nat) (h : Inv s) (hnow : s.no
   | none => exact h1
   | some k => exact InvP_exit k h1
 
+/-! ### client requests -/
+
+theorem find_some {s : St} {uid : String} {t : DTask} (h : s.find uid = some t) :
+    t ∈ s.tasks ∧ t.inTable = true ∧ t.uid = uid := by
+  unfold St.find at h
+  have h1 := List.mem_of_find?_eq_some h
+  have h2 := List.find?_some h
+  simp only [Bool.and_eq_true, beq_iff_eq] at h2
+  exact ⟨h1, h2.1, h2.2⟩
+
+theorem find_eq_none_iff {s : St} {uid : String} :
+    s.find uid = none ↔ ∀ t ∈ s.tasks, t.inTable = true → t.uid ≠ uid := by
+  unfold St.find
+  rw [List.find?_eq_none]
+  simp
+
+theorem find_eq_some_iff {pend : List Nat} {s : St} (h : InvP pend s) {uid : String} {t : DTask} :
+    s.find uid = some t ↔ t ∈ s.tasks ∧ t.inTable = true ∧ t.uid = uid := by
+  refine ⟨find_some, ?_⟩
+  rintro ⟨h1, h2, h3⟩
+  cases hf : s.find uid with
+  | none => exact absurd h3 (find_eq_none_iff.mp hf t h1 h2)
+  | some x =>
+    obtain ⟨x1, x2, x3⟩ := find_some hf
+    rw [h.uidU x x1 t h1 x2 h2 (x3.trans h3.symm)]
+
+theorem liveCount_eq_zero {l : List Child} {x : Nat} (h : ∀ c ∈ l, c.live = true → c.sid ≠ x) :
+    liveCount l x = 0 := by
+  unfold liveCount
+  rw [List.length_eq_zero_iff, List.filter_eq_nil_iff]
+  intro c hc
+  simp only [Bool.and_eq_true, beq_iff_eq, not_and]
+  exact h c hc
+
+theorem Inv_eject {s : St} (h : Inv s) (uid : String) (u : Nat) : Inv (eject s uid u).1 := by
+  unfold eject
+  cases hf : s.find uid with
+  | none => exact h
+  | some t =>
+    obtain ⟨htm, hit, htu⟩ := find_some hf
+    simp only []
+    split
+    · exact h
+    · split
+      · rename_i hn
+        simp only []
+        apply InvP_of h _ (upd_tasks_filterMap _ _)
+        · intro x hx y hy
+          have hx' := h.tinv x hx
+          simp only [List.contains_nil] at hx' ⊢
+          by_cases hxs : x.sid = t.sid
+          · have hb : (x.sid == t.sid) = true := by simpa using hxs
+            have : x = t := h.sidU.inj hx htm hxs
+            subst this
+            simp only [hb, if_true, Option.some.injEq] at hy
+            subst hy
+            refine ⟨rfl, rfl, ?_, ?_, h.count x hx⟩
+            · intro hh; cases hh
+            exact {
+              sid_lt := hx'.sid_lt, seq_lt := hx'.seq_lt, owner_ok := hx'.owner_ok, sorted := hx'.sorted
+              armed := by intro hh; cases hh
+              done := by intro _ hh; cases hh
+              act_tab := by intro hh; cases hh
+              drain := by intro hh; cases hh
+              pend := by intro hh; cases hh
+              wait := fun _ _ => hn
+              ptab := by intro hh; cases hh }
+          · have hb : (x.sid == t.sid) = false := by simpa using hxs
+            simp only [hb, Bool.false_eq_true, if_false, Option.some.injEq] at hy
+            subst hy
+            exact ⟨rfl, rfl, id, hx'.mono (Nat.le_refl _) (Nat.le_refl _) rfl rfl, h.count x hx⟩
+        · rw [upd_tasks_filterMap]
+          apply seqU_keep _ _ h.seqU
+          intro x hx y hy
+          split at hy
+          · rename_i hb
+            have : x = t := h.sidU.inj hx htm (by simpa using hb)
+            cases hy; rw [this]
+          · cases hy; rfl
+        · intro c hc hl
+          obtain ⟨x, hx, hs⟩ := h.kids c hc hl
+          refine ⟨x, hx, hs, ?_⟩
+          split <;> simp
+      · rename_i hn
+        have hn' : t.nsim = 0 := by simpa using hn
+        simp only []
+        apply InvP_of h _ (del_tasks_filterMap _ _)
+        · intro x hx y hy
+          have hx' := h.tinv x hx
+          split at hy
+          · cases hy
+          · cases hy
+            exact ⟨rfl, rfl, id, hx'.mono (Nat.le_refl _) (Nat.le_refl _) rfl rfl, h.count x hx⟩
+        · rw [del_tasks_filterMap]
+          apply seqU_keep _ _ h.seqU
+          intro x hx y hy
+          split at hy
+          · cases hy
+          · cases hy; rfl
+        · intro c hc hl
+          have hc : c ∈ s.children := hc
+          obtain ⟨x, hx, hs⟩ := h.kids c hc hl
+          refine ⟨x, hx, hs, ?_⟩
+          have hne : x.sid ≠ t.sid := by
+            intro e
+            have := h.count t htm
+            rw [hn', ← e, hs] at this
+            have hp := liveCount_pos hc hl
+            omega
+          have hb : (x.sid == t.sid) = false := by simpa using hne
+          simp [hb]
+
+/-- the record `ev_periodic_start` leaves behind -/
+theorem TInv_start {s' : St} {t0 : DTask} {now pq : Nat} (hr : t0.resched = true)
+    (hcb : t0.cbUnsched = false) (hn : t0.nrun = 0) (hit : t0.inTable = true)
+    (hsorted : t0.occ.Pairwise (· ≤ ·)) (howner : t0.owner ≠ notAUid ∧ s'.users.contains t0.owner = true)
+    (hsid : t0.sid < s'.nextSid) (hpq : pq < s'.perseq) (hnow : s'.now = now) :
+    TInvP false s' { resched t0 now with active := true, seq := pq } := by
+  cases hdw : t0.occ.dropWhile (· < now) with
+  | nil =>
+    rw [resched_nil hdw, if_pos hn]
+    exact {
+      sid_lt := hsid, seq_lt := hpq, owner_ok := howner, sorted := List.Pairwise.nil
+      armed := by intro hh; cases hh
+      done := fun _ _ => ⟨rfl, rfl⟩
+      act_tab := fun _ => hit
+      drain := by intro _ _ hh; cases hh
+      pend := fun _ _ => ⟨hn, now, rfl, by rw [hnow]; exact Nat.le_refl _⟩
+      wait := by
+        intro _ hh
+        rcases hh with hh | hh
+        · cases hh
+        · cases hh.2
+      ptab := by intro hh; cases hh }
+  | cons e r =>
+    rw [resched_cons hdw]
+    have he := dropWhile_head_not _ _ _ _ hdw
+    simp at he
+    exact {
+      sid_lt := hsid, seq_lt := hpq, owner_ok := howner
+      sorted := by
+        have := List.Pairwise.sublist (List.dropWhile_sublist (fun o => decide (o < now))) hsorted
+        rw [hdw] at this; exact this
+      armed := fun _ => ⟨hit, rfl, hcb, rfl, rfl, by rw [hnow]; exact he, Nat.le_add_left 1 _⟩
+      done := by intro hh; rw [hr] at hh; cases hh
+      act_tab := fun _ => hit
+      drain := by intro _ hh; rw [hr] at hh; cases hh
+      pend := by intro _ hh; rw [hcb] at hh; cases hh
+      wait := by
+        intro _ hh
+        rcases hh with hh | hh
+        · cases hh
+        · rw [hr] at hh; cases hh.1
+      ptab := by intro hh; cases hh }
+
+theorem resched_keeps (t : DTask) (now : Nat) :
+    (resched t now).sid = t.sid ∧ (resched t now).uid = t.uid ∧ (resched t now).inTable = t.inTable ∧
+    (resched t now).nsim = t.nsim ∧ (resched t now).owner = t.owner ∧ (resched t now).maxSimul = t.maxSimul := by
+  cases hdw : t.occ.dropWhile (· < now) with
+  | nil => rw [resched_nil hdw]; split <;> exact ⟨rfl, rfl, rfl, rfl, rfl, rfl⟩
+  | cons e r => rw [resched_cons hdw]; exact ⟨rfl, rfl, rfl, rfl, rfl, rfl⟩
+
+/-- a new record at the end of the table -/
+theorem Inv_append {s s' : St} {t : DTask} (h : Inv s) (ht : s'.tasks = s.tasks ++ [t])
+    (hc : s'.children = s.children) (h1 : s'.nextSid = s.nextSid + 1) (h2 : s.perseq ≤ s'.perseq)
+    (h3 : s'.users = s.users) (h4 : s'.now = s.now) (hsid : t.sid = s.nextSid) (hseq : t.seq = s.perseq)
+    (hti : TInvP false s' t) (hn : t.nsim = 0) (hu : ∀ x ∈ s.tasks, x.inTable = true → x.uid ≠ t.uid) :
+    Inv s' where
+  sidU := by
+    rw [ht]
+    unfold SidU
+    rw [List.map_append, List.nodup_append]
+    refine ⟨h.sidU, by simp, ?_⟩
+    intro a ha b hb
+    rw [List.mem_map] at ha
+    obtain ⟨x, hx, rfl⟩ := ha
+    simp only [List.map_cons, List.map_nil, List.mem_singleton] at hb
+    have := (h.tinv x hx).sid_lt
+    omega
+  uidU := by
+    rw [ht]
+    intro a ha b hb pa pb hab
+    rw [List.mem_append, List.mem_singleton] at ha hb
+    rcases ha with ha | rfl <;> rcases hb with hb | rfl
+    · exact h.uidU a ha b hb pa pb hab
+    · exact absurd hab (hu a ha pa)
+    · exact absurd hab.symm (hu b hb pb)
+    · rfl
+  seqU := by
+    rw [ht]
+    intro a ha b hb hab
+    rw [List.mem_append, List.mem_singleton] at ha hb
+    rcases ha with ha | rfl <;> rcases hb with hb | rfl
+    · exact h.seqU a ha b hb hab
+    · have := (h.tinv a ha).seq_lt; omega
+    · have := (h.tinv b hb).seq_lt; omega
+    · rfl
+  tinv := by
+    rw [ht]
+    intro x hx
+    rw [List.mem_append, List.mem_singleton] at hx
+    simp only [List.contains_nil]
+    rcases hx with hx | rfl
+    · exact (h.tinv' hx).mono (by omega) h2 h3 h4
+    · exact hti
+  kids := by
+    rw [ht, hc]
+    intro c hc' hl
+    obtain ⟨x, hx, hs⟩ := h.kids c hc' hl
+    exact ⟨x, List.mem_append_left _ hx, hs⟩
+  count := by
+    rw [ht, hc]
+    intro x hx
+    rw [List.mem_append, List.mem_singleton] at hx
+    rcases hx with hx | rfl
+    · exact h.count x hx
+    · rw [hn, hsid]
+      symm
+      apply liveCount_eq_zero
+      intro c hc' hl e
+      obtain ⟨y, hy, hs⟩ := h.kids c hc' hl
+      have := (h.tinv y hy).sid_lt
+      omega
+
+/-! ### `_inject_task1` -/
+
+/-- the ownership decision of `_inject_task1` on the completed uids (`notAUid` = unknown or not given) -/
+def effCore (s : St) (oc uc : Nat) : Option Nat :=
+  if uc = notAUid ∧ oc = notAUid then none
+  else if uc = notAUid ∧ s.me ≠ 0 ∧ oc ≠ s.me then none
+  else if oc = notAUid ∧ s.me ≠ 0 ∧ uc ≠ s.me then none
+  else if uc ≠ notAUid ∧ oc ≠ notAUid ∧ oc ≠ uc then none
+  else some (if oc = notAUid then uc else oc)
+
+/-- the `OWNER` field of an instruction, completed -/
+def ownerC (s : St) : Option Nat → Nat
+  | some o => complUid s o
+  | none => notAUid
+
+/-- the owner `_inject_task1` settles on; `none`: the request is refused on ownership grounds -/
+def effOwner (s : St) (owner : Option Nat) (u : Nat) : Option Nat := effCore s (ownerC s owner) (complUid s u)
+
+/-- the record a (re)load arms -/
+def loaded (s : St) (t0 : DTask) : DTask := { resched t0 s.now with active := true, seq := s.perseq }
+
+def replaced (old : DTask) (e ms dur : Nat) (occ : List Nat) : DTask :=
+  { old with owner := e, occ := occ, dur := dur, maxSimul := ms, nrun := 0, resched := true,
+             cbUnsched := false, active := false }
+
+def fresh (sid : Nat) (uid : String) (e ms dur : Nat) (occ : List Nat) : DTask :=
+  { sid := sid, uid := uid, owner := e, occ := occ, dur := dur, maxSimul := ms }
+
+/-- `_inject_task1` once the owner `e` is settled -/
+def injectAs (s : St) (uid : String) (maxSimul dur : Nat) (occ : List Nat) (isTask : Bool) (e : Nat) : St × Bool :=
+  if !isTask then (s, false)
+  else match s.find uid with
+    | some old =>
+      if old.owner ≠ e then (s, false)
+      else (({ s with perseq := s.perseq + 1 } : St).upd (loaded s (replaced old e maxSimul dur occ)), true)
+    | none =>
+      ({ s with nextSid := s.nextSid + 1, perseq := s.perseq + 1,
+                tasks := s.tasks ++ [loaded s (fresh s.nextSid uid e maxSimul dur occ)] }, true)
+
+/-- `_inject_task1` by cases -/
+def injectSpec (s : St) (uid : String) (owner : Option Nat) (maxSimul dur : Nat) (occ : List Nat) (isTask : Bool)
+    (u : Nat) : St × Bool :=
+  match effOwner s owner u with
+  | none => (s, false)
+  | some e => injectAs s uid maxSimul dur occ isTask e
+
+theorem inject_core (s : St) (uid : String) (maxSimul dur : Nat) (occ : List Nat) (isTask : Bool) (oc uc : Nat) :
+    (if uc = notAUid ∧ oc = notAUid then (s, false)
+    else if uc = notAUid ∧ s.me ≠ 0 ∧ oc ≠ s.me then (s, false)
+    else if oc = notAUid ∧ s.me ≠ 0 ∧ uc ≠ s.me then (s, false)
+    else if uc ≠ notAUid ∧ oc ≠ notAUid ∧ oc ≠ uc then (s, false)
+    else
+      let oc := if oc = notAUid then uc else oc
+      let uc := if uc = notAUid then oc else uc
+      if !isTask then (s, false)
+      else
+        match s.find uid with
+        | some old =>
+          if old.owner ≠ oc then (s, false)
+          else
+            let t : DTask := { old with owner := uc, occ := occ, dur := dur, maxSimul := maxSimul, nrun := 0,
+                                        resched := true, cbUnsched := false, active := false }
+            let (s, t) := startPeriodic s t
+            (s.upd t, true)
+        | none =>
+          let t : DTask := { sid := s.nextSid, uid := uid, owner := uc, occ := occ, dur := dur, maxSimul := maxSimul }
+          let s := { s with nextSid := s.nextSid + 1 }
+          let (s, t) := startPeriodic s t
+          ({ s with tasks := s.tasks ++ [t] }, true))
+    = (match effCore s oc uc with
+       | none => (s, false)
+       | some e => injectAs s uid maxSimul dur occ isTask e) := by
+  unfold effCore
+  by_cases c1 : uc = notAUid ∧ oc = notAUid
+  · rw [if_pos c1, if_pos c1]
+  rw [if_neg c1, if_neg c1]
+  by_cases c2 : uc = notAUid ∧ s.me ≠ 0 ∧ oc ≠ s.me
+  · rw [if_pos c2, if_pos c2]
+  rw [if_neg c2, if_neg c2]
+  by_cases c3 : oc = notAUid ∧ s.me ≠ 0 ∧ uc ≠ s.me
+  · rw [if_pos c3, if_pos c3]
+  rw [if_neg c3, if_neg c3]
+  by_cases c4 : uc ≠ notAUid ∧ oc ≠ notAUid ∧ oc ≠ uc
+  · rw [if_pos c4, if_pos c4]
+  rw [if_neg c4, if_neg c4]
+  have he2 : (if uc = notAUid then (if oc = notAUid then uc else oc) else uc) = (if oc = notAUid then uc else oc) := by
+    by_cases ho : oc = notAUid <;> by_cases hu : uc = notAUid
+    · exact absurd ⟨hu, ho⟩ c1
+    · simp [ho, hu]
+    · simp [ho, hu]
+    · simp only [ho, hu, if_false]
+      rcases Nat.decEq oc uc with hne | heq
+      · exact absurd ⟨hu, ho, hne⟩ c4
+      · exact heq.symm
+  simp only [he2]
+  rfl
+
+theorem inject_eq (s : St) (uid : String) (owner : Option Nat) (maxSimul dur : Nat) (occ : List Nat)
+    (isTask : Bool) (u : Nat) :
+    inject s uid owner maxSimul dur occ isTask u = injectSpec s uid owner maxSimul dur occ isTask u := by
+  cases owner with
+  | none => exact inject_core s uid maxSimul dur occ isTask notAUid (complUid s u)
+  | some o => exact inject_core s uid maxSimul dur occ isTask (complUid s o) (complUid s u)
+
+theorem complUid_ne {s : St} {x : Nat} (h : complUid s x ≠ notAUid) :
+    complUid s x = x ∧ x ≠ notAUid ∧ s.users.contains x = true := by
+  unfold complUid at h ⊢
+  split at h
+  · rename_i hh; rw [if_pos hh]; exact ⟨rfl, hh.1, hh.2⟩
+  · exact absurd rfl h
+
+theorem ownerC_ne {s : St} {owner : Option Nat} (h : ownerC s owner ≠ notAUid) :
+    ∃ o, owner = some o ∧ ownerC s owner = o ∧ o ≠ notAUid ∧ s.users.contains o = true := by
+  cases owner with
+  | none => exact absurd rfl h
+  | some o =>
+    have := complUid_ne (s := s) (x := o) h
+    exact ⟨o, rfl, this.1, this.2⟩
+
+theorem effCore_some {s : St} {oc uc e : Nat} (h : effCore s oc uc = some e) :
+    (e = oc ∨ e = uc) ∧ e ≠ notAUid ∧ (oc = notAUid ∨ oc = e) ∧ (uc = notAUid ∨ uc = e) := by
+  unfold effCore at h
+  by_cases c1 : uc = notAUid ∧ oc = notAUid
+  · rw [if_pos c1] at h; cases h
+  rw [if_neg c1] at h
+  by_cases c2 : uc = notAUid ∧ s.me ≠ 0 ∧ oc ≠ s.me
+  · rw [if_pos c2] at h; cases h
+  rw [if_neg c2] at h
+  by_cases c3 : oc = notAUid ∧ s.me ≠ 0 ∧ uc ≠ s.me
+  · rw [if_pos c3] at h; cases h
+  rw [if_neg c3] at h
+  by_cases c4 : uc ≠ notAUid ∧ oc ≠ notAUid ∧ oc ≠ uc
+  · rw [if_pos c4] at h; cases h
+  rw [if_neg c4] at h
+  cases h
+  by_cases ho : oc = notAUid <;> by_cases hu : uc = notAUid
+  · exact absurd ⟨hu, ho⟩ c1
+  · simp [ho, hu]
+  · simp [ho, hu]
+  · have : oc = uc := by
+      rcases Nat.decEq oc uc with hne | heq
+      · exact absurd ⟨hu, ho, hne⟩ c4
+      · exact heq
+    subst this
+    simp [ho]
+
+theorem effOwner_known {s : St} {owner : Option Nat} {u e : Nat} (h : effOwner s owner u = some e) :
+    e ≠ notAUid ∧ s.users.contains e = true := by
+  obtain ⟨h1, h2, h3, h4⟩ := effCore_some h
+  refine ⟨h2, ?_⟩
+  rcases h1 with h1 | h1
+  · obtain ⟨o, _, ho, _, hk⟩ := ownerC_ne (s := s) (owner := owner) (h1 ▸ h2)
+    rw [h1, ho]; exact hk
+  · have := complUid_ne (s := s) (x := u) (h1 ▸ h2)
+    rw [h1, this.1]; exact this.2.2
+
+theorem loaded_keeps (s : St) (t0 : DTask) :
+    (loaded s t0).sid = t0.sid ∧ (loaded s t0).uid = t0.uid ∧ (loaded s t0).inTable = t0.inTable ∧
+    (loaded s t0).nsim = t0.nsim ∧ (loaded s t0).owner = t0.owner ∧ (loaded s t0).maxSimul = t0.maxSimul ∧
+    (loaded s t0).seq = s.perseq := by
+  have := resched_keeps t0 s.now
+  exact ⟨this.1, this.2.1, this.2.2.1, this.2.2.2.1, this.2.2.2.2.1, this.2.2.2.2.2, rfl⟩
+
+theorem Inv_injectAs {s : St} (h : Inv s) (uid : String) (ms dur : Nat) (occ : List Nat) (isTask : Bool) (e : Nat)
+    (hs : occ.Pairwise (· ≤ ·)) (he : e ≠ notAUid ∧ s.users.contains e = true) :
+    Inv (injectAs s uid ms dur occ isTask e).1 := by
+  unfold injectAs
+  split
+  · exact h
+  cases hf : s.find uid with
+  | none =>
+    simp only []
+    have hk := loaded_keeps s (fresh s.nextSid uid e ms dur occ)
+    refine Inv_append (t := loaded s (fresh s.nextSid uid e ms dur occ)) h rfl rfl rfl (Nat.le_succ _) rfl rfl
+      hk.1 hk.2.2.2.2.2.2 ?_ hk.2.2.2.1 ?_
+    · exact TInv_start rfl rfl rfl rfl hs he (Nat.lt_succ_self _) (Nat.lt_succ_self _) rfl
+    · intro x hx hxi
+      rw [hk.2.1]
+      exact find_eq_none_iff.mp hf x hx hxi
+  | some old =>
+    obtain ⟨hom, hoi, hou⟩ := find_some hf
+    simp only []
+    split
+    · exact h
+    rename_i hown
+    have hk := loaded_keeps s (replaced old e ms dur occ)
+    have hsid : (loaded s (replaced old e ms dur occ)).sid = old.sid := hk.1
+    have hold := h.tinv' hom
+    show Inv (({ s with perseq := s.perseq + 1 } : St).upd (loaded s (replaced old e ms dur occ)))
+    have htasks : (({ s with perseq := s.perseq + 1 } : St).upd (loaded s (replaced old e ms dur occ))).tasks
+        = s.tasks.filterMap (fun x => if x.sid == (loaded s (replaced old e ms dur occ)).sid
+            then some (loaded s (replaced old e ms dur occ)) else some x) :=
+      upd_tasks_filterMap ({ s with perseq := s.perseq + 1 } : St) _
+    apply InvP_of h _ htasks
+    · intro x hx y hy
+      have hx' := h.tinv' hx
+      simp only [List.contains_nil]
+      rw [hsid] at hy
+      by_cases hxs : x.sid = old.sid
+      · have hb : (x.sid == old.sid) = true := by simpa using hxs
+        have : x = old := h.sidU.inj hx hom hxs
+        subst this
+        simp only [hb, if_true, Option.some.injEq] at hy
+        subst hy
+        refine ⟨hk.1, hk.2.1, fun _ => hoi, ?_, ?_⟩
+        · exact TInv_start rfl rfl rfl hoi hs he hold.sid_lt (Nat.lt_succ_self _) rfl
+        · rw [hk.2.2.2.1]; exact h.count x hx
+      · have hb : (x.sid == old.sid) = false := by simpa using hxs
+        simp only [hb, Bool.false_eq_true, if_false, Option.some.injEq] at hy
+        subst hy
+        exact ⟨rfl, rfl, id, hx'.mono (Nat.le_refl _) (Nat.le_succ _) rfl rfl, h.count x hx⟩
+    · intro a ha b hb hab
+      rw [mem_upd] at ha hb
+      rcases ha with ⟨ha, _⟩ | ⟨rfl, _⟩ <;> rcases hb with ⟨hb, _⟩ | ⟨rfl, _⟩
+      · exact h.seqU a ha b hb hab
+      · rw [hk.2.2.2.2.2.2] at hab
+        have := (h.tinv a ha).seq_lt; omega
+      · rw [hk.2.2.2.2.2.2] at hab
+        have := (h.tinv b hb).seq_lt; omega
+      · rfl
+    · intro c hc hl
+      obtain ⟨x, hx, hxs⟩ := h.kids c hc hl
+      refine ⟨x, hx, hxs, ?_⟩
+      split <;> simp
+
+theorem Inv_inject {s : St} (h : Inv s) (uid : String) (owner : Option Nat) (ms dur : Nat) (occ : List Nat)
+    (isTask : Bool) (u : Nat) (hs : occ.Pairwise (· ≤ ·)) : Inv (inject s uid owner ms dur occ isTask u).1 := by
+  rw [inject_eq]
+  unfold injectSpec
+  cases he : effOwner s owner u with
+  | none => exact h
+  | some e => exact Inv_injectAs h uid ms dur occ isTask e hs (effOwner_known he)
+
+/-! ### `cmd_ical` as a recursion -/
+
+def applyInstr (s : St) (peer : Nat) : Instr → St × Bool
+  | .sched uid owner ms dur occ isTask => inject s uid owner ms dur occ isTask peer
+  | .cancel uid => eject s uid peer
+
+def instrUid : Instr → String
+  | .sched uid _ _ _ _ _ => uid
+  | .cancel uid => uid
+
+/-- the instructions of one request applied in order: final state, replies -/
+def applyAll (s : St) (peer : Nat) : List Instr → St × List (String × Bool)
+  | [] => (s, [])
+  | i :: r => ((applyAll (applyInstr s peer i).1 peer r).1,
+               (instrUid i, (applyInstr s peer i).2) :: (applyAll (applyInstr s peer i).1 peer r).2)
+
+def icalStep (peer : Nat) (acc : St × List (String × Bool)) (i : Instr) : St × List (String × Bool) :=
+  let (s, rps) := acc
+  match i with
+  | .sched uid owner ms dur occ isTask =>
+    let (s, ok) := inject s uid owner ms dur occ isTask peer
+    (s, rps ++ [(uid, ok)])
+  | .cancel uid =>
+    let (s, ok) := eject s uid peer
+    (s, rps ++ [(uid, ok)])
+
+theorem icalStep_eq (peer : Nat) (s : St) (rps : List (String × Bool)) (i : Instr) :
+    icalStep peer (s, rps) i = ((applyInstr s peer i).1, rps ++ [(instrUid i, (applyInstr s peer i).2)]) := by
+  cases i <;> rfl
+
+theorem ical_fold (peer : Nat) : ∀ (ins : List Instr) (s : St) (rps : List (String × Bool)),
+    ins.foldl (icalStep peer) (s, rps) = ((applyAll s peer ins).1, rps ++ (applyAll s peer ins).2) := by
+  intro ins
+  induction ins with
+  | nil => intro s rps; simp [applyAll]
+  | cons i r ih =>
+    intro s rps
+    rw [List.foldl_cons, icalStep_eq, ih]
+    simp [applyAll]
+
+theorem cmdIcal_eq (s : St) (peer : Nat) (ins : List Instr) :
+    cmdIcal s peer ins = (if (applyAll s peer ins).2.any (·.2) then addChkpnt (applyAll s peer ins).1 peer
+      else (applyAll s peer ins).1, (applyAll s peer ins).2) := by
+  have : cmdIcal s peer ins = (if (ins.foldl (icalStep peer) (s, [])).2.any (·.2)
+      then addChkpnt (ins.foldl (icalStep peer) (s, [])).1 peer else (ins.foldl (icalStep peer) (s, [])).1,
+      (ins.foldl (icalStep peer) (s, [])).2) := rfl
+  rw [this, ical_fold]
+  simp
+
+theorem Inv_applyInstr {s : St} (h : Inv s) (peer : Nat) (i : Instr) (hi : instrSorted i) :
+    Inv (applyInstr s peer i).1 := by
+  cases i with
+  | sched uid owner ms dur occ isTask => exact Inv_inject h uid owner ms dur occ isTask peer hi
+  | cancel uid => exact Inv_eject h uid peer
+
+theorem Inv_applyAll (peer : Nat) : ∀ (ins : List Instr) (s : St), Inv s → (∀ i ∈ ins, instrSorted i) →
+    Inv (applyAll s peer ins).1 := by
+  intro ins
+  induction ins with
+  | nil => intro s h _; exact h
+  | cons i r ih =>
+    intro s h hs
+    simp only [applyAll]
+    exact ih _ (Inv_applyInstr h peer i (hs i List.mem_cons_self)) (fun j hj => hs j (List.mem_cons_of_mem _ hj))
+
+theorem Inv_addChkpnt {s : St} (h : Inv s) (u : Nat) : Inv (addChkpnt s u) := by
+  have hf := addChkpnt_frame s u
+  exact InvP_frame h (addChkpnt_tasks s u) (addChkpnt_children s u) (Nat.le_of_eq hf.nextSid.symm)
+    (Nat.le_of_eq hf.perseq.symm) hf.users hf.now
+
+theorem Inv_cmdIcal {s : St} (h : Inv s) (peer : Nat) (ins : List Instr) (hs : ∀ i ∈ ins, instrSorted i) :
+    Inv (cmdIcal s peer ins).1 := by
+  rw [cmdIcal_eq]
+  simp only []
+  split
+  · exact Inv_addChkpnt (Inv_applyAll peer ins s h hs) peer
+  · exact Inv_applyAll peer ins s h hs
+
+theorem Inv_chkpnt {s : St} (h : Inv s) (cut : Option Cut) : Inv (chkpnt s cut) :=
+  InvP_frame h rfl rfl (Nat.le_refl _) (Nat.le_refl _) rfl rfl
+
+theorem Inv_childExit {s : St} (h : Inv s) (k : Nat) : Inv (childExit s k).1 := InvP_exit k h
+
+theorem Inv_tick {s : St} {now : Nat} (h : Inv s) (hnow : s.now ≤ now) : Inv (tick s now).1 := by
+  rw [tick_eq_iter]; exact Inv_iter none h hnow
+
+/-- every operation preserves well-formedness -/
+theorem Inv_step {s : St} (h : Inv s) (op : Op) (hop : OpOk s op) : Inv (step s op).1 := by
+  cases op with
+  | tick now => exact Inv_tick h hop
+  | req p ins => exact Inv_cmdIcal h p ins hop
+  | exit k => exact Inv_childExit h k
+  | chk => exact Inv_chkpnt h none
+  | tickExit now k => exact Inv_iter (some k) h hop
+
+/-- the fields no client request touches -/
+structure ReqFrame (s s' : St) : Prop where
+  me : s'.me = s.me
+  users : s'.users = s.users
+  now : s'.now = s.now
+  spawnFail : s'.spawnFail = s.spawnFail
+  children : s'.children = s.children
+  files : s'.files = s.files
+
+theorem ReqFrame.refl (s : St) : ReqFrame s s := ⟨rfl, rfl, rfl, rfl, rfl, rfl⟩
+
+theorem ReqFrame.trans {a b c : St} (h1 : ReqFrame a b) (h2 : ReqFrame b c) : ReqFrame a c :=
+  ⟨h2.me.trans h1.me, h2.users.trans h1.users, h2.now.trans h1.now, h2.spawnFail.trans h1.spawnFail,
+   h2.children.trans h1.children, h2.files.trans h1.files⟩
+
+theorem applyInstr_frame (s : St) (peer : Nat) (i : Instr) : ReqFrame s (applyInstr s peer i).1 := by
+  cases i with
+  | sched uid owner ms dur occ isTask =>
+    simp only [applyInstr]
+    rw [inject_eq]
+    unfold injectSpec
+    cases effOwner s owner peer with
+    | none => exact ReqFrame.refl s
+    | some e =>
+      simp only [injectAs]
+      split
+      · exact ReqFrame.refl s
+      · cases s.find uid with
+        | none => exact ⟨rfl, rfl, rfl, rfl, rfl, rfl⟩
+        | some old =>
+          simp only []
+          split
+          · exact ReqFrame.refl s
+          · exact ⟨rfl, rfl, rfl, rfl, rfl, rfl⟩
+  | cancel uid =>
+    simp only [applyInstr, eject]
+    cases s.find uid with
+    | none => exact ReqFrame.refl s
+    | some t =>
+      simp only []
+      split
+      · exact ReqFrame.refl s
+      · split <;> exact ⟨rfl, rfl, rfl, rfl, rfl, rfl⟩
+
+theorem applyAll_frame (peer : Nat) : ∀ (ins : List Instr) (s : St), ReqFrame s (applyAll s peer ins).1 := by
+  intro ins
+  induction ins with
+  | nil => intro s; exact ReqFrame.refl s
+  | cons i r ih => intro s; exact (applyInstr_frame s peer i).trans (ih _)
+
+theorem cmdIcal_frame (s : St) (peer : Nat) (ins : List Instr) : ReqFrame s (cmdIcal s peer ins).1 := by
+  rw [cmdIcal_eq]
+  simp only []
+  split
+  · have h1 := applyAll_frame peer ins s
+    have h2 := addChkpnt_frame (applyAll s peer ins).1 peer
+    exact ⟨h2.me.trans h1.me, h2.users.trans h1.users, h2.now.trans h1.now, h2.spawnFail.trans h1.spawnFail,
+      (addChkpnt_children _ _).trans h1.children, h2.files.trans h1.files⟩
+  · exact applyAll_frame peer ins s
+
+theorem step_now {s : St} (h : Inv s) (op : Op) : (step s op).1.now = op.clock s := by
+  cases op with
+  | tick now =>
+    obtain ⟨L, _, _, _, _, hf⟩ := iter_spec s now none h.sidU
+    exact hf.now
+  | req p ins => exact (cmdIcal_frame s p ins).now
+  | exit k =>
+    simp only [step, Op.clock, childExit]
+    cases hc : s.children[k]? with
+    | none => rw [exit_none s k [] (by intro c hc'; rw [hc] at hc'; cases hc')]
+    | some c =>
+      by_cases hl : c.live = true
+      · exact (exit_spec s k [] h.sidU c hc hl).2.2.now
+      · rw [exit_none s k [] (by intro c' hc'; rw [hc] at hc'; cases hc'; simpa using hl)]
+  | chk => rfl
+  | tickExit now k =>
+    obtain ⟨L, _, _, _, _, hf⟩ := iter_spec s now (some k) h.sidU
+    exact hf.now
+
+theorem Mono_cons {s : St} {op : Op} {ops : List Op} (h : Mono s.now (op :: ops)) :
+    OpOk s op ∧ Mono (op.clock s) ops := by
+  cases op with
+  | tick now => exact h
+  | req p ins => exact h
+  | exit k => exact ⟨trivial, h⟩
+  | chk => exact ⟨trivial, h⟩
+  | tickExit now k => exact h
+
+theorem run_cons (s : St) (op : Op) (ops : List Op) :
+    run s (op :: ops) = ((run (step s op).1 ops).1,
+      (step s op).2.1.map (fun sp => (op.clock s, sp)) ++ (run (step s op).1 ops).2.1,
+      (step s op).2.2 ++ (run (step s op).1 ops).2.2) := rfl
+
+/-- every state reached by a history (monotone clock, ascending occurrence lists) is well-formed -/
+theorem Inv_run : ∀ (ops : List Op) (s : St), Inv s → Mono s.now ops → Inv (run s ops).1 := by
+  intro ops
+  induction ops with
+  | nil => intro s h _; exact h
+  | cons op ops ih =>
+    intro s h hm
+    obtain ⟨h1, h2⟩ := Mono_cons hm
+    rw [run_cons]
+    simp only []
+    apply ih _ (Inv_step h op h1)
+    rw [step_now h op]; exact h2
+
 end Echse.Daemon
